@@ -161,6 +161,12 @@ func (fr *Frame) modCall(ci ssa.CallInstruction, ms *modSet, bind map[*ssa.FreeV
 			return
 		}
 		if m := builtinModels[key]; m != nil {
+			if key == "fmt.Fprint" || key == "fmt.Fprintln" || key == "fmt.Fprintf" {
+				if b, ok := builderWriter(c.Args[0]); ok {
+					ms.at("Bld", resolveBind(b, bind))
+					return
+				}
+			}
 			if m.modBld {
 				recv := resolveBind(c.Args[0], bind)
 				ms.at("Bld", recv)
